@@ -145,6 +145,25 @@ def d2_writers(facts, rep):
     for need in (TGC + 'cancel_group_execution', TGC + 'propagate_task_group_state', TGC + 'bind_to_impl'):
         if need not in seen:
             raise AnalysisBroken('no write of the cancellation flag found in %s' % need)
+    # the "may have children" hint lets cancel_group_execution skip the propagation.  Children register once (their single
+    # created -> bound transition) and stay bound for their whole life, which can be longer than one use of the parent.
+    # So the hint is monotone: it is cleared only when the context object is initialised, never by reset() or anything else.
+    CLEARERS = {TGC + 'initialize': 'construction: no child can exist yet'}
+    nset = 0
+    for fn in list(facts.fns.values()):
+        for pos, o in atomic_ops(fn):
+            if o['kind'] not in ('store', 'rmw', 'cas') or last_member(fn, o['obj']) != 'my_may_have_children':
+                continue
+            val = o.get('val', -1)
+            # the only "clearing" value is the constant 0; everything else (the may_have_children constant) sets the hint
+            if val >= 0 and fn.cv(val) != 0:
+                nset += 1
+                continue
+            rep.ob('D2', 'K11', fn, 'the may-have-children hint is cleared only at construction (line %s)' % o['ln'], fn.p in CLEARERS,
+                   '%s clears the hint although bound children can still exist: a later cancel_group_execution() skips the propagation '
+                   'and a still-bound descendant is never cancelled' % fn.p, ln=o['ln'], key_extra='mhc%s' % o['ln'])
+    if nset == 0:
+        raise AnalysisBroken('no store of may_have_children found (bind_to_impl)')
     rep.floor('D2', 6, 'flag writers')
 
 
